@@ -120,6 +120,16 @@ Definition compile_run (bd : J5sAst.bundle) (exts : list Desc.dfile) (r : run) (
   | None => None
   end.
 
+(* the same call on a PackageSet in ANY state [pc] (loaded packages) / [lc] (SearchResult.Linked results): what earlier
+   calls - also failed ones, which in Go leave the dependencies they had loaded and the files they had linked - left behind *)
+Definition compile_from (bd : J5sAst.bundle) (exts : list Desc.dfile) (r : run)
+           (pc : list (bytes * @pkg cdesc)) (lc : list (bytes * linked)) (n : bytes) : option (list (bytes * linked)) :=
+  match compile_and_link (cmpa_convert bd) (r_lf r) (r_rd r) (r_rf r) split_owner (is_local_of (r_pkgs r))
+          (c_ext_file exts) c_deps_of c_link1 (r_fuel r) (r_lfuel r) (flat_bundle (r_pkgs r) (r_files r)) pc lc n with
+  | Some (_, _, out) => Some out
+  | None => None
+  end.
+
 (* ------------------------------------------------------------------ cmpa's descriptor -> the printer's descriptor *)
 (* what cmpa's descriptor type does not carry, per element: start line of its source location (0 = none), comments,
    the options set on it in the order the descriptor holds them.  Keyed by file, element kind and path *)
